@@ -202,7 +202,9 @@ class Backend(metaclass=ABCMeta):
         directory = os.path.dirname(full_path)
         if not os.path.exists(directory):
             self.logger.info('Creating %s', directory)
-            os.makedirs(directory)
+            # A relative path such as 'a/../b.txt' names a directory that
+            # exists as soon as its own prefix has been created.
+            os.makedirs(directory, exist_ok=True)
 
         self.logger.info('Generating %s', full_path)
         self.clear_output_buffer()
